@@ -1381,6 +1381,7 @@ func runC04(c *core.Ctx) core.Meta {
 	checkSMEMOperands(c, t)
 	checkModifierFlags(c)
 	checkOperandsFresh(c)
+	checkOpcodeOperandsPrinted(c)
 	checkWidthColumn(c)
 	checkFlatOpcodes(c, t)
 	checkDSOperands(c, t)
